@@ -202,6 +202,13 @@ class FormatterFactory:
             #
             raise ValueError('%s formats cannot use positional placeholders')
 
+        # Make sure the formatter can actually be built: the formatter
+        # class validates the format string itself (logging.Formatter
+        # refuses e.g. '%s' and formats without any field), and that
+        # should be reported when the configuration is loaded, not when
+        # the handler is created.
+        self()
+
     def __call__(self):
         #
         # Need to determine if we should pass
